@@ -88,6 +88,16 @@ Theorem pf_arbitrary_model_bounds sm ss xs pdf :
   0 <= pf_arbitrary_model sm ss xs pdf <= trapz xs pdf.
 Proof. exact (C15.pf_arbitrary_model_bounds sm ss xs pdf). Qed.
 
+Theorem pf_arbitrary_model_decreasing_in_strength sm1 sm2 ss xs pdf :
+  0 < ss -> 0 < sm1 -> sm1 <= sm2 -> ascending xs -> List.Forall (fun p => 0 <= p) pdf ->
+  pf_arbitrary_model sm2 ss xs pdf <= pf_arbitrary_model sm1 ss xs pdf.
+Proof. exact (C15.pf_arbitrary_model_decreasing_in_strength sm1 sm2 ss xs pdf). Qed.
+
+Theorem pf_arbitrary_model_range_refuted_descending :
+  exists sm ss xs pdf, 0 < sm /\ 0 < ss /\ length xs = length pdf /\ List.Forall (fun p => 0 <= p) pdf /\
+                       pf_arbitrary_model sm ss xs pdf < 0.
+Proof. exact C15.pf_arbitrary_model_range_refuted_descending. Qed.
+
 Print Assumptions Phi_strictly_increasing.
 Print Assumptions Phi_symmetry.
 Print Assumptions Phi_derivative.
@@ -109,3 +119,5 @@ Print Assumptions pf_norm_load_model_decreasing_in_strength.
 Print Assumptions pf_norm_load_model_in_0_1.
 Print Assumptions pf_norm_load_closed_form_partial.
 Print Assumptions pf_arbitrary_model_bounds.
+Print Assumptions pf_arbitrary_model_decreasing_in_strength.
+Print Assumptions pf_arbitrary_model_range_refuted_descending.
